@@ -190,6 +190,7 @@ func ZZ_C12_Faults() {
 	vfAssert("stream-has-meta-regions-and-end", n >= 5)
 	nf := vfConfig("FAULTS", 1)
 	fault := -1
+	onlyTruncation := true // the stream is a proper prefix of the saved one and nothing else happened to it
 	for f := 0; f < nf; f++ {
 		op := vfChoose("fault", 9)
 		i := vfChoose("block", n)
@@ -207,6 +208,9 @@ func ZZ_C12_Faults() {
 		}
 		if i == 0 || ((op == 3 || op == 6) && j == 0) {
 			vfNoteMetaHit = true
+		}
+		if op != 0 {
+			onlyTruncation = false
 		}
 		if f == 0 {
 			fault = op
@@ -241,7 +245,7 @@ func ZZ_C12_Faults() {
 		}
 		vfAssert("loaded-entry-equals-a-saved-entry", found)
 	})
-	if fault == 0 {
+	if fault == 0 && onlyTruncation {
 		vfAssert("truncated-stream-is-an-error", err != nil)
 	}
 	if vl != vs {
